@@ -1,3 +1,4 @@
+import AmVerif.Gen.Skel
 import AmVerif.Lemmas.Reload
 /-!
 # C10 — what is declared non-reloadable is never rewritten
@@ -427,5 +428,14 @@ example : (runH 5 [(exEnvOpt 1, .api (.load exKeyOpt)), (exEnvOpt 2, .hotReload)
 /-- `Arc<T>` opts out of hot-reloading exactly when `T` does (`impl Compound for Arc<T>` inherits
 `HOT_RELOADED`): an `Arc` of an opted-out type is never registered nor given a lock. -/
 theorem C10_arc_inherits_opt_out : arcInheritsHotReloaded = true := by decide
+
+/-- The `OnceInitCell` wrappers (`utils` feature) opt out of hot-reloading exactly when the wrapped type does, like `Arc`. -/
+theorem C10_cell_inherits_opt_out : cellInheritsHotReloaded = true := by decide
+
+/-- Both maps (sharded `AssetCache`, single-threaded `LocalAssetCache`) insert with `entry(key).or_insert(entry)` inside one
+lock / borrow scope: the first entry for a key survives, handles that were given out stay valid, a late entry is dropped. -/
+theorem C10_insert_keeps_first :
+    AmVerif.Gen.skel_cache_AssetMap_for_AssetMap_insert = [.call .s_get_shard, .acq .s_write 0, .call .s_entry, .call .s_or_insert, .rel 0] ∧
+    AmVerif.Gen.skel_local_cache_AssetMap_for_AssetMap_insert = [.acq .s_borrow_mut 0, .call .s_entry, .call .s_or_insert, .rel 0] := ⟨rfl, rfl⟩
 
 end AmVerif.Props.C10
